@@ -179,3 +179,35 @@ def instance_text(node, env, scope=None, lens=None, depth=0):
     if isinstance(node, ast.Starred):
         return "*" + rec(node.value)
     return ast.unparse(node).replace(" ", "")
+
+
+def run_path(body, env, scope=None):
+    """Deterministic walk through a statement list under env (every if-test must be decidable with ceval, else Unknown):
+    returns (executed simple statements in order, exit statement or None).  try-blocks are followed on their no-exception path
+    (the handlers are returned separately by handlers_on_path), loops are recorded as one opaque statement."""
+    done = []
+
+    class _Exit(Exception):
+        def __init__(self, st):
+            self.st = st
+
+    def block(stmts):
+        for st in stmts:
+            if isinstance(st, ast.If):
+                block(st.body if ceval(st.test, env, scope) else st.orelse)
+            elif isinstance(st, (ast.Return, ast.Raise)):
+                raise _Exit(st)
+            elif isinstance(st, ast.Try):
+                block(st.body)
+                block(st.orelse)
+                block(st.finalbody)
+            elif isinstance(st, ast.With):
+                done.append(st)
+                block(st.body)
+            else:
+                done.append(st)
+    try:
+        block(body)
+    except _Exit as e:
+        return done, e.st
+    return done, None
